@@ -382,6 +382,56 @@ theorem C03_rebuild_eq_fresh_stmt_false : ¬ C03_rebuild_eq_fresh_stmt := by
   have := h witnessA witnessB witnessTy (by decide) (by decide)
   exact absurd this (by decide)
 
+
+/-! further kernel-checked witnesses, one per known-finding class (props/C03.known) -/
+
+/-- F-C03-1 inside an `AnyView`: rebuilding with the IDENTICAL value drops the toggled class
+(`Class<Arc<str>>::rebuild` compares pointers and rewrites the whole attribute) -/
+def witnessAny : View :=
+  .any (.elem "div" [.cls, .tcls] .unit) (.elem "div" [.cls "a", .tcls "on" true] .unit)
+
+theorem C03_any_identical_value_witness :
+    HasTy witnessAny .any ∧ updateEqFresh witnessAny witnessAny = false ∧
+    View.anyElem classOverwrite witnessAny = true := by decide
+
+/-- F-C03-2 style-overwrite -/
+theorem C03_style_overwrite_witness :
+    updateEqFresh (.elem "div" [.sty "color: red;", .psty "width" "1px"] .unit)
+      (.elem "div" [.sty "color: blue;", .psty "width" "1px"] .unit) = false ∧
+    View.anyElem styleOverwrite (.elem "div" [.sty "color: blue;", .psty "width" "1px"] .unit) = true := by
+  decide
+
+/-- F-C03-3 toggle-rename -/
+theorem C03_toggle_rename_witness :
+    updateEqFresh (.elem "div" [.tcls "b" true] .unit) (.elem "div" [.tcls "a" true] .unit) = false ∧
+    View.anyElemPair toggleRenamed (.elem "div" [.tcls "b" true] .unit)
+      (.elem "div" [.tcls "a" true] .unit) = true := by decide
+
+/-- the canonical-context check for a sequence of rebuilds -/
+def updateSeqEqFresh (a : View) (bs : List View) : Bool :=
+  let d0 := (({} : Dom).createElement "main").1
+  let r1 := build a d0
+  let d1 := mount r1.2 r1.1 0 none
+  let r2 := rebuildAll bs r1.2 d1
+  let e1 := build (lastView a bs) d0
+  let e2 := mount e1.2 e1.1 0 none
+  match serializeKids r2.1 0, serializeKids e2 0 with
+  | some x, some y => Tree.beqList (Tree.normList x) (Tree.normList y)
+  | _, _ => false
+
+/-- F-C03-4 style-rename: the stored name is never updated, the second rename leaves `width` -/
+theorem C03_style_rename_witness :
+    updateSeqEqFresh (.elem "div" [.psty "color" "red"] .unit)
+      [.elem "div" [.psty "width" "1px"] .unit, .elem "div" [.psty "--x" "1"] .unit] = false ∧
+    updateSeqEqFresh (.elem "div" [.psty "color" "red"] .unit)
+      [.elem "div" [.psty "width" "1px"] .unit] = true := by decide
+
+/-- F-C03-5 dup-item -/
+theorem C03_dup_item_witness :
+    updateEqFresh (.elem "div" [.tcls "on" true, .tcls "on" true] .unit)
+      (.elem "div" [.tcls "on" false, .tcls "on" true] .unit) = false ∧
+    View.anyElem dupItem (.elem "div" [.tcls "on" false, .tcls "on" true] .unit) = true := by decide
+
 /-! ## non-vacuity -/
 
 /-- a stage-1 type with every structural combinator -/
